@@ -232,6 +232,7 @@ func (x *exec) load(s *State, l *Loc, t types.Type) *Val {
 	case LFieldHeap:
 		name, sort := x.fieldArr(l.T, l.Field)
 		v := x.loaded(s, Sel(x.h.get(s, name, sort), l.Ref), t)
+		x.entryAlive(s, name, l.Ref, v)
 		if _, isMap := t.Underlying().(*types.Map); isMap && !x.noAssume {
 			// A-NOALIAS: two different map-typed fields of one object never hold the same map
 			si := x.c.structOf(l.T)
@@ -614,4 +615,36 @@ func (x *exec) mergeVals(conds []string, vs []*Val, stem string) *Val {
 	nv := x.mkVal(t, v0.Typ)
 	// keep array origin when all agree
 	return nv
+}
+
+// entryAlive: a pointer read from a field that has not been written since function entry, of an object
+// that existed at entry, designates an object that existed at entry (or nil): the entry heap has no
+// dangling references (A-WFHEAP — Go's memory safety). Without it a freshly allocated object could be
+// "found" behind an old field.
+func (x *exec) entryAlive(s *State, name, ref string, v *Val) {
+	if x.noAssume || v.Typ == nil || s.heap[name] != name+"@0" {
+		return
+	}
+	var r string
+	switch v.Typ.Underlying().(type) {
+	case *types.Pointer, *types.Map:
+		r = x.term(v)
+	case *types.Slice:
+		r = App("s-ref", x.term(v))
+	default:
+		return
+	}
+	if _, ok := x.c.idx["alive@0"]; !ok {
+		return
+	}
+	// an embedded (by-value) struct lives and dies with its outermost enclosing object
+	owner := ref
+	for strings.HasPrefix(owner, "(sub!") {
+		i := strings.Index(owner, " ")
+		if i < 0 {
+			break
+		}
+		owner = strings.TrimSuffix(owner[i+1:], ")")
+	}
+	x.assume(s, Imp(Sel("alive@0", owner), Or(Eq(r, "0"), Sel("alive@0", r))))
 }
